@@ -375,7 +375,7 @@ def w5(prog, ctx):
         ctx.fail("W4", inc, inc._qualname, "inc", "IncrementalDict.inc no longer stores type(value) then adds")
 
 
-def w5(prog, ctx):
+def w_levels(prog, ctx):
     """Each counting table is built with the strategy option of its own feature level, and writes to a file of that level."""
     n = 0
     level = {"create_gene_counter": "gene", "create_transcript_counter": "transcript"}
@@ -409,7 +409,7 @@ def run(prog, ctx):
     ctx.rule("W5", "every create_gene_counter / create_transcript_counter call passes args.gene_quantification / "
                    "args.transcript_quantification respectively and an output path of the same level; the factories pass the strategy "
                    "to ReadWeightCounter and use their own level's extractor")
-    w5(prog, ctx)
+    w_levels(prog, ctx)
     ctx.rule("W4", "the accumulator cell type of AssignedFeatureCounter.feature_counter resolves to float (weights 1/k are fractional)")
     ctx.rule("W1", "path enumeration of ReadWeightCounter.process_* with a one-variable interval domain for the feature count: every "
                    "return is 0, 1 or 1/k; 1 only if k <= 1; 1/k only with the documented strategy flags positive on the path; the "
